@@ -119,7 +119,7 @@ func (av AnyValue) AsInt8() (int8, error) {
 	case int8:
 		return v, nil
 	case string:
-		res, err := strconv.ParseInt(v, 10, 64)
+		res, err := strconv.ParseInt(v, 10, 8)
 		return int8(res), err
 	}
 	return 0, errs.NewErrInvalidType("int8", av.Val)
